@@ -1,7 +1,7 @@
 (* C02 — Intra pictures reconstruct exactly as H.263 prescribes.
    Proved so far (the composition over whole pictures is tied by execution against the
    reference reconstruction, see DESIGN.md): *)
-From H263V Require Import base.Prelude spec.SpecRecon model.Types model.Tables model.Syntax model.Recon model.Decoder proofs.ReconSpec proofs.RlePlacement model.Reader spec.SpecTables proofs.VlcTables model.F32 proofs.PlaneShape proofs.GatherSpec proofs.IdctPlacement.
+From H263V Require Import base.Prelude spec.SpecRecon model.Types model.Tables model.Syntax model.Recon model.Decoder proofs.ReconSpec proofs.RlePlacement model.Reader spec.SpecTables proofs.VlcTables model.F32 proofs.PlaneShape proofs.GatherSpec proofs.IdctPlacement model.Header model.Decoder spec.SpecHeader proofs.BlockRoundTrip proofs.MacroblockRoundTrip proofs.PictureRoundTrip.
 
 (* every coefficient: sign(L) (Q (2|L|+1) - [Q even]) saturated to -2048..2047, for every quantizer and level *)
 Theorem C02_dequant_exact : forall q level, 0 <= q -> dequant q level = spec_dequant q level.
@@ -68,7 +68,55 @@ Theorem C02_transform_placement : forall w h levels out bpl bh,
                      else at_ out x y.
 Proof. exact idct_channel_spec. Qed.
 
+(* THE PARSER ROUND TRIP.  `enc_fulls` encodes a list of macroblocks from their field values per H.263 5.3 / 5.4 (COD; MCBPC
+   by Table 7 or 8; CBPY by Table 13, complemented for inter macroblocks; DQUANT; one or four vector differences by Table 14;
+   six blocks of INTRADC and TCOEF events in the short form of Table 16 with its sign bit or in the escape forms of H.263 /
+   Sorenson version 0 and of Sorenson version 1; stuffing; not-coded macroblocks).  For every such list that fills the picture
+   exactly (`loop_ok`), in I, P and disposable pictures without the unrestricted-vector syntax, whatever follows the picture
+   and wherever it starts: the decoder's macroblock loop over the encoded bits returns exactly what `pure_loop` computes from
+   the field values alone - the coefficient blocks (dequantised and placed: C02_block_placement), the quantizer track and
+   the vectors - and leaves exactly the bits that follow.  Every syntactically valid picture body is therefore accepted and no
+   bit of it is misread. *)
+Theorem C02_picture_body_roundtrip : forall o np running mpl total levw,
+  let ipic := is_iframe (picture_type (d_header np)) in
+  let v1 := sorenson o && (match version (d_header np) with Some 1 => true | _ => false end) in
+  simple_picture (d_header np) running ->
+  forall fms fuel st rest pos, Forall (wf_full ipic v1) fms -> loop_ok fms (zlength (l_types st)) total -> (length fms < fuel)%nat ->
+  l_reader st = mkReader (enc_fulls ipic v1 fms ++ rest) pos ->
+  exists pos', mb_loop fuel o np running mpl total levw st = rmap (pure_loop np running mpl levw fms st) (mkReader rest pos').
+Proof. exact mb_loop_roundtrip. Qed.
+
+(* its parts: one block, one macroblock header *)
+Theorem C02_block_roundtrip : forall o pic running t b rest pos,
+  let v1 := sorenson o && (match version pic with Some 1 => true | _ => false end) in
+  wf_block v1 (mb_is_intra t) b ->
+  exists pos',
+    decode_block o pic running t (negb (match b_events b with [] => true | _ => false end)) (mkReader (enc_block v1 b ++ rest) pos)
+    = Ok (mkBlock (b_dc b) (map ev_tcoef (b_events b)), mkReader rest pos').
+Proof. exact block_roundtrip. Qed.
+Theorem C02_macroblock_roundtrip : forall pic running m rest pos,
+  simple_picture pic running -> wf_coded (is_iframe (picture_type pic)) m ->
+  exists pos', decode_macroblock pic running (mkReader (enc_coded (is_iframe (picture_type pic)) m ++ rest) pos)
+               = Ok (mb_of_spec m, mkReader rest pos').
+Proof. exact coded_macroblock_roundtrip. Qed.
+
+(* non-vacuity: an intra macroblock (MCBPC '1', CBPY '0011' = no luma coefficients coded... pattern 0000) with INTRADC only *)
+Example C02_roundtrip_example :
+  wf_coded true (mkMbSpec [true] Intra false false [false; false; true; true] [false; false; false; false] None None None) /\
+  wf_block false true (mkBlockSpec (Some 100) []) /\
+  wf_block false true (mkBlockSpec (Some 17) [EvShort [true; false] false 0 1 true; EvEscape true 5 (-100) false]).
+Proof.
+  split; [|split].
+  - unfold wf_coded. cbn. repeat split; auto.
+  - unfold wf_block. cbn. split; [exists 100; repeat split; lia|left; reflexivity].
+  - unfold wf_block. cbn [mb_is_intra b_dc b_events]. split; [exists 17; repeat split; lia|right].
+    cbn [wf_events wf_event ev_last esc_width]. repeat split; try lia; try reflexivity. vm_compute. tauto.
+Qed.
+
 Print Assumptions C02_dequant_exact.
+Print Assumptions C02_picture_body_roundtrip.
+Print Assumptions C02_block_roundtrip.
+Print Assumptions C02_macroblock_roundtrip.
 Print Assumptions C02_transform_placement.
 Print Assumptions C02_code_tables.
 Print Assumptions C02_block_placement.
